@@ -897,7 +897,86 @@ def status_poller_case(ctx, case):
     ctx.label('status_poller')
 
 
-COMPONENTS = {'status_poller': status_poller_case,
+def dead_peer_disconnect_case(ctx, case):
+    """'disconnect() may be called in any state ... without raising, and
+    always leads to the networking thread terminating' - also when packets
+    are still queued and the peer is already gone (reset), so that the flush
+    inside disconnect() cannot be written.  The networking thread is parked
+    in a listener meanwhile (it has not seen the end of the stream yet).
+    case {version, compress, queued, immediate, then_connect}"""
+    import threading
+    import time
+    from minecraft.networking.packets import serverbound as sb, Packet
+    version = case['version']
+    ctx.ev()
+    login = [('compress', case['compress'])] \
+        if case.get('compress') is not None else []
+    first = servers.Server({'version': version, 'login': login +
+                            [('success',)],
+                            'play': {'bursts': [[('raw', 0x7B, b'go')]],
+                                     'mode': 'all', 'end': 'silent'}})
+    second = servers.Server({'version': version, 'login': [('success',)],
+                             'play': {'bursts': [[('keep_alive',
+                                                   {'keep_alive_id': 3})]],
+                                      'mode': 'reactive',
+                                      'end': 'disconnect'}})
+    world = vnet.World(servers=[first, second])
+    parked, release = threading.Event(), threading.Event()
+    raised = None
+    with vnet.installed(world):
+        conn, o = servers.make_connection(world, allowed_versions={version})
+
+        def park(p):
+            if p.id == 0x7B and not parked.is_set():
+                parked.set()
+                release.wait(20)
+        conn.register_packet_listener(park, Packet)
+        try:
+            conn.connect()
+            if not parked.wait(20):
+                from vlib.core import HarnessError
+                raise HarnessError('C16 dead peer: listener never ran')
+            first.reset_on_close = True
+            first.close()
+            for i in range(case['queued']):
+                conn.write_packet(sb.play.ChatPacket(message='q%d' % i))
+            try:
+                conn.disconnect(immediate=case.get('immediate', False))
+            except Exception as e:
+                raised = e
+            release.set()
+            state = world.settle(timeout=20.0)
+            x5 = None
+            if case.get('then_connect') and state == 'done':
+                conn.connect()
+                x5 = world.settle(timeout=20.0)
+        except Exception as e:
+            if type(e).__name__ == 'HarnessError':
+                world.kill_all()
+                raise
+            ctx.fail('dead_peer', 'S3-raised', case, exc=e)
+            world.kill_all()
+            return
+    if raised is not None:
+        ctx.fail('dead_peer', 'S3-disconnect-raised', case, exc=raised)
+        world.kill_all()
+        return
+    if state != 'done':
+        ctx.fail('dead_peer', 'S4-thread-never-terminates-after-disconnect',
+                 case, state)
+        world.kill_all()
+        return
+    if case.get('then_connect') and (
+            x5 != 'done' or second.replies != [('keep_alive', 3)]):
+        ctx.fail('dead_peer', 'S5-cannot-connect-again', case,
+                 (x5, second.replies), ('done', [('keep_alive', 3)]))
+        return
+    ctx.nt('dead_peer', repr(case))
+    ctx.label('dead_peer_disconnect')
+
+
+COMPONENTS = {'dead_peer': dead_peer_disconnect_case,
+              'status_poller': status_poller_case,
               'history': history_case, 'stalled': stalled_case,
               'many_reconnects': many_reconnects_case,
               'refused': refused_case}
@@ -1049,6 +1128,20 @@ def t_refused(ctx):
                         'or not x 4 call sequences')
 
 
+def t_dead_peer(ctx):
+    k = 0
+    for v in (757, 340, 47):
+        for queued in (0, 1, 3):
+            for imm in (False, True, 0):
+                k += 1
+                dead_peer_disconnect_case(ctx, {
+                    'version': v, 'queued': queued, 'immediate': imm,
+                    'compress': [None, 64][k % 2],
+                    'then_connect': bool(k % 2)})
+    ctx.exhaustive_done('disconnect() with 0/1/3 packets queued after the '
+                        'peer reset: 3 protocols x 3 disconnect forms')
+
+
 def t_status_poller(ctx):
     k = 0
     for v in (757, 340, 47):
@@ -1067,6 +1160,7 @@ def tasks(tier):
     q = tier == 'quick'
     tl = [('stalled', t_stalled, {}), ('refused', t_refused, {}),
           ('status_poller', t_status_poller, {}),
+          ('dead_peer', t_dead_peer, {}),
           ('many_reconnects', t_many_reconnects,
            dict(n=1100 if q else 3000))]
     for i in range(len(SMALL)):
